@@ -58,6 +58,17 @@ def inject(text, r, nfaults):
     return text
 
 
+# shapes that random fault injection reaches rarely: the root itself an ERROR node (recovery still open at end of file), several
+# outermost errors, MISSING anonymous tokens only, MISSING named nodes, errors nested in errors, non-ASCII text on the first line
+SHAPED = [
+    "f(1, 2\ng(3)\n", "x = [1, 2\nprint(x)\n", "(((\n", "def f(:\n    pass\n", "def g(a, :\n    return a\n", "print(a[1)\n",
+    "x = (1\ny = 2)\nz = [3\n", "a 42\nb 43\nc 44\n", "if x\n    y = 1\nelse\n    y = 2\n", "for i in :\n    pass\nwhile :\n    pass\n",
+    "x = 1 +\ny = 2 *\nz = 3\n", "class :\n    def (self):\n        return\n", "print(é é)\nprint(ü ü)\n", "§\nx = 1\n§§\n",
+    "x = 'é' 'a' = é é\ny = )\n", "def f():\n    return (\n\ndef g():\n    return ]\n", "a = {1: 2, 3\nb = {4\n", "lambda : :\n",
+    "import\nfrom import x\nimport a.\n", "x = [1, 2, 3\n", "\n\n  )\n", "f(a)(b)(\n", "@\ndef f(): pass\n", "x = 1 if else 2\ny = 3 if 4 else\n",
+]
+
+
 def run(tier):
     V = C.Verdicts(PROP, tier)
     d = C.workdir("c18")
@@ -80,6 +91,7 @@ def run(tier):
     for f in sorted(os.listdir(C.CORPUS_PY)):
         with open(os.path.join(C.CORPUS_PY, f), encoding="utf-8") as fh:
             texts.append(fh.read())
+    texts += SHAPED
     seen = set()
     k = 0
     for t in texts:
